@@ -26,23 +26,36 @@ def _fcomp(kind, a, b, c, cp=(1.0, 0.0, 0.0, 0.0)):
                         heat_capacity_constants=pv.HeatCapacityConstants(*cp))
 
 
+def _fcomp_edited(kind, a, b, c, how):
+    """a component whose constant set was changed after construction ("for every constant set": the classes are mutable)"""
+    other = "frost" if (how == "other_kind" and kind == "antoine") else kind
+    comp = _fcomp(other, 1.0, 1.0, 1.0)
+    if how == "in_place" and other == kind:
+        k = comp.vapour_pressure_constants
+        k.a, k.b, k.c = a, b, c
+    else:
+        comp.vapour_pressure_constants = pv.VaporPressureConstants(a=a, b=b, c=c, type=kind)
+    return comp
+
+
 def concrete(inp):
     kind = inp.get("kind", "antoine")
     bad = []
     if all(inp.get(k) is not None for k in ("a", "b", "c", "T")):
         a, b, c, T = (float(inp[k]) for k in ("a", "b", "c", "T"))
         if T > 1 and (kind != "antoine" or abs(T + c) > 1e-3 * T):
-            comp = _fcomp(kind, a, b, c)
-            h = 2e-3 * T
-            try:
-                lp = lambda t: math.log(float(comp.get_vapor_pressure(t)))
-                d = (lp(T - 2 * h) - 8 * lp(T - h) + 8 * lp(T + h) - lp(T + 2 * h)) / (12 * h)  # 5-point stencil
-                want = pvutils.R * T * T * d
-                got = 1000 * float(comp.get_vaporisation_heat(T))
-                if not close(got, want, 2e-7, 1e-9):
-                    bad.append("%s: 1000*H(T=%r)=%r but R T^2 dlnP/dT=%r" % (kind, T, got, want))
-            except (OverflowError, ValueError):
-                pass
+            for route, comp in (("fresh component", _fcomp(kind, a, b, c)), ("constants edited in place", _fcomp_edited(kind, a, b, c, "in_place")),
+                                ("constant set replaced", _fcomp_edited(kind, a, b, c, "replaced")), ("constant set of the other equation replaced", _fcomp_edited(kind, a, b, c, "other_kind"))):
+                h = 2e-3 * T
+                try:
+                    lp = lambda t: math.log(float(comp.get_vapor_pressure(t)))
+                    d = (lp(T - 2 * h) - 8 * lp(T - h) + 8 * lp(T + h) - lp(T + 2 * h)) / (12 * h)  # 5-point stencil
+                    want = pvutils.R * T * T * d
+                    got = 1000 * float(comp.get_vaporisation_heat(T))
+                    if not close(got, want, 2e-7, 1e-9):
+                        bad.append("%s (%s): 1000*H(T=%r)=%r but R T^2 dlnP/dT=%r" % (kind, route, T, got, want))
+                except (OverflowError, ValueError):
+                    pass
     if all(inp.get(k) is not None for k in ("ca", "cb", "cc", "cd", "t0", "t1", "t2")):
         cp = tuple(float(inp[k]) for k in ("ca", "cb", "cc", "cd"))
         t0, t1, t2 = (float(inp[k]) for k in ("t0", "t1", "t2"))
@@ -101,7 +114,7 @@ def vapour(job, thorough=False):
                 for (a, b, c, t) in ((7.20389, -1733.926, -39.485, 333.15), (job.rng.uniform(5, 9), job.rng.uniform(-2500, -900), job.rng.uniform(-60, -10), job.rng.uniform(280, 400))):
                     if kind == "frost":
                         a, b, c = 16.0, -3800.0, -200000.0
-                    fc = _fcomp(kind, a, b, c)
+                    fc = _fcomp_edited(kind, a, b, c, "in_place")  # built the way the symbolic component is: constants assigned after construction
                     env = {"vpa_1": a, "vpb_1": b, "vpc_1": c, "T": t}
                     job.validated("P %s" % kind, close(terms.evaluate(lift(P), env), fc.get_vapor_pressure(t), 1e-9))
                     job.validated("H %s" % kind, close(terms.evaluate(lift(H), env), fc.get_vaporisation_heat(t), 1e-9))
